@@ -3,6 +3,8 @@
 // internal name<->offset functions, and name strings given as hex lines.
 // usage: drv_fixed <out-prefix> <shards> <lo> <hi> <step> <names-hex-file>
 #include <fstream>
+#include <vector>
+#include <cstdint>
 #include <functional>
 #include <limits>
 #include <memory>
@@ -72,6 +74,38 @@ int main(int argc, char** argv) {
                     (tz == utc_time_zone() ? "1" : "0") + ",\"lookups\":" + lookups(tz, &ub) +
                     ",\"calls\":" + std::to_string(g_calls - calls0) + ",\"ub\":" + std::to_string(ub) + "}";
     out.emit(s);
+  }
+  // offsets far beyond 24 hours, over the whole 64-bit range (all are "UTC"): values whose low 16 / 24 / 32 / 40 / 48
+  // bits look like a valid offset, the int32 / int64 limits
+  {
+    std::vector<int64_t> big;
+    const int64_t rs[] = {0, 1, -1, 60, -60, 3600, -3600, 19800, -19800, 86399, -86399, 86400, -86400};
+    for (int sh : {17, 18, 24, 31, 32, 40, 48, 62})
+      for (int64_t k : {1, -1, 5, -3})
+        for (int64_t r : rs) {
+          __int128 v = (__int128)k * ((__int128)1 << sh) + r;
+          if (v > INT64_MAX || v < INT64_MIN) continue;
+          if (v >= -86400 && v <= 86400) continue;
+          big.push_back((int64_t)v);
+        }
+    for (int64_t d : {0, 1, 3599, 3600, 86399, 86400}) { big.push_back(INT64_MAX - d); big.push_back(INT64_MIN + d); big.push_back(2147483647LL - d); big.push_back(-2147483648LL + d); }
+    for (int64_t o : big) {
+      int ub = 0;
+      int calls0 = g_calls;
+      time_zone tz;
+      std::string name, toname, toabbr;
+      time_zone byname;
+      bool loadok = false, fromok = false;
+      seconds back(12345);
+      VT_GUARD(ub, tz = fixed_time_zone(seconds(o)); name = tz.name(); loadok = load_time_zone(name, &byname);
+               toname = FixedOffsetToName(seconds(o)); toabbr = FixedOffsetToAbbr(seconds(o)); fromok = FixedOffsetFromName(toname, &back));
+      int ub2 = 0;
+      std::string lk = ub ? std::string("[]") : lookups(tz, &ub2);
+      out.emit("{\"e\":\"FixedBig\",\"ow\":" + vt::W(o) + ",\"o\":90000,\"name\":" + bj(name) + ",\"toname\":" + bj(toname) + ",\"toabbr\":" + bj(toabbr) +
+               ",\"fromok\":" + (fromok ? "1" : "0") + ",\"fromoff\":" + std::to_string((long)back.count()) + ",\"loadok\":" + (loadok ? "1" : "0") +
+               ",\"eq\":" + (byname == tz ? "1" : "0") + ",\"isutc\":" + (tz == utc_time_zone() ? "1" : "0") + ",\"lookups\":" + lk +
+               ",\"calls\":" + std::to_string(g_calls - calls0) + ",\"ub\":" + std::to_string(ub | ub2) + "}");
+    }
   }
   std::ifstream in(argv[6]);
   std::string line;
